@@ -337,9 +337,9 @@ fn drive_writer(writer: &str, inp: &Input, spec: &str, sink: FaultSink, out: &mu
                 let r = std::panic::catch_unwind(std::panic::AssertUnwindSafe(move || {
                     let _ = w.into_inner();
                 }));
-                match r {
-                    Err(_) => out.notes.push("kf:csv-into-inner-panic".into()),
-                    Ok(()) => out.later_ok.push("into_inner".into()),
+                // (`into_inner` returns the sink, not a Result: it cannot report success or failure)
+                if r.is_err() {
+                    out.notes.push("kf:csv-into-inner-panic".into());
                 }
             }
             sink.mark_done();
@@ -411,7 +411,7 @@ fn run_wfault(t: &[&str], fails: &mut Fails) -> String {
     let mut out = Outcome::default();
     let res = drive_writer(writer, &inp, spec, sink.clone(), &mut out);
     let data = sink.data();
-    let accepted = out.accepted_at_error.unwrap_or(data.len());
+    let accepted = sink.accepted(out.accepted_at_error);
     if !is_prefix(&data[..accepted.min(data.len())], &good) {
         fails.push(("not-a-prefix".into(), format!("sink holds {accepted} bytes that are not a prefix of the fault-free output")));
     }
@@ -420,7 +420,6 @@ fn run_wfault(t: &[&str], fails: &mut Fails) -> String {
     if !out.later_ok.is_empty() && data != good {
         let family = match writer {
             "sw" | "swl" | "swb" | "fw" | "fwb" => "ipc",
-            "csv" => "csv",
             _ => "json",
         };
         fails.push((
